@@ -169,7 +169,20 @@ func vbBuildChain(u *vbUniverse, now time.Time) (*vbChain, error) {
 			h.Bits = vbEasyBits
 			h.Timestamp = par.Timestamp.Add(10 * time.Minute)
 		case "badtime":
-			h.Timestamp = base.Add(-time.Hour)
+			// the tightest violation: exactly the median time of the
+			// (up to) 11 true ancestors, where "after" is required
+			var tss []int64
+			for j, k := s.Parent, 0; j >= 0 && k < 11; j, k = u.Headers[j].Parent, k+1 {
+				tss = append(tss, c.hdr[j].Timestamp.Unix())
+			}
+			for a := range tss {
+				for b := a + 1; b < len(tss); b++ {
+					if tss[b] < tss[a] {
+						tss[a], tss[b] = tss[b], tss[a]
+					}
+				}
+			}
+			h.Timestamp = time.Unix(tss[len(tss)/2], 0)
 			h.Bits = vbHardBits
 		case "future":
 			h.Timestamp = now.Add(3 * time.Hour).Truncate(time.Second)
@@ -261,8 +274,39 @@ type vbStepIn struct {
 	Act vbAct `json:"act"`
 }
 type vbPathIn struct {
-	ID    int        `json:"id"`
+	ID   int `json:"id"`
+	Init struct {
+		BFile []int `json:"bfile"`
+		FFile []int `json:"ffile"`
+	} `json:"init"`
 	Steps []vbStepIn `json:"steps"`
+}
+
+// vbFaultStore lets one batch write of the block manager fail the way a full
+// disk would. The single-header write of a reorganisation (always preceded by
+// rollbacks in the same message) is let through; the model injects the fault
+// into the final batch write only.
+type vbFaultStore struct {
+	headerfs.BlockHeaderStore
+	armed       bool
+	sawRollback bool
+}
+
+func (s *vbFaultStore) RollbackLastBlock() (*headerfs.BlockStamp, error) {
+	s.sawRollback = true
+	return s.BlockHeaderStore.RollbackLastBlock()
+}
+
+func (s *vbFaultStore) WriteHeaders(hdrs ...headerfs.BlockHeader) error {
+	if s.sawRollback {
+		s.sawRollback = false
+		return s.BlockHeaderStore.WriteHeaders(hdrs...)
+	}
+	if s.armed && len(hdrs) > 0 {
+		s.armed = false
+		return fmt.Errorf("verif: injected write failure")
+	}
+	return s.BlockHeaderStore.WriteHeaders(hdrs...)
 }
 type vbStepOut struct {
 	Act  vbAct  `json:"act"`
@@ -281,6 +325,7 @@ type vbEnv struct {
 	dir   string
 	db    walletdb.DB
 	bs    headerfs.BlockHeaderStore
+	fst   *vbFaultStore
 	fs    headerfs.FilterHeaderStore
 	bm    *blockManager
 	cands *list.List
@@ -333,10 +378,26 @@ func (e *vbEnv) openStores() error {
 	return nil
 }
 
+func (e *vbEnv) reopenStores() error {
+	vbCloseStoreFile(e.bs)
+	vbCloseStoreFile(e.fs)
+	var err error
+	e.bs, err = headerfs.NewBlockHeaderStore(e.dir, e.db, &e.c.params)
+	if err != nil {
+		return fmt.Errorf("block store: %w", err)
+	}
+	e.fs, err = headerfs.NewFilterHeaderStore(e.dir, e.db, headerfs.RegularFilter, &e.c.params, nil)
+	if err != nil {
+		return fmt.Errorf("filter store: %w", err)
+	}
+	return nil
+}
+
 func (e *vbEnv) startManager() error {
+	e.fst = &vbFaultStore{BlockHeaderStore: e.bs}
 	bm, err := newBlockManager(&blockManagerCfg{
 		ChainParams:      e.c.params,
-		BlockHeaders:     e.bs,
+		BlockHeaders:     e.fst,
 		RegFilterHeaders: e.fs,
 		QueryDispatcher:  nil,
 		TimeSource:       blockchain.NewMedianTime(),
@@ -363,15 +424,22 @@ func (e *vbEnv) startManager() error {
 				if ferr != nil {
 					seen = vbERR
 				}
+				// what a subscriber registering right now would be
+				// given as the upper end of its backlog
+				_, bestNow, berr := bm.NotificationsSinceHeight(0)
+				best := int(bestNow)
+				if berr != nil {
+					best = vbERR
+				}
 				var rec []int
 				switch m := n.(type) {
 				case *blockntfns.Connected:
 					hd := m.Header()
-					rec = []int{1, e.idOf(&hd), int(m.Height()), -1, seen}
+					rec = []int{1, e.idOf(&hd), int(m.Height()), -1, seen, best}
 				case *blockntfns.Disconnected:
 					hd := m.Header()
 					nt := m.ChainTip()
-					rec = []int{2, e.idOf(&hd), int(m.Height()), e.idOf(&nt), -1}
+					rec = []int{2, e.idOf(&hd), int(m.Height()), e.idOf(&nt), -1, -1}
 				}
 				e.evMu.Lock()
 				e.ev = append(e.ev, rec)
@@ -447,17 +515,20 @@ func (e *vbEnv) observe() vbObs {
 	o.B.HOf = make([]int, n)
 	o.B.ByHash = make([]int, n)
 	for i := 0; i < n; i++ {
-		ht, err := e.bs.HeightFromHash(&e.c.hash[i])
+		// FetchHeader = index lookup + file read; when it succeeds it
+		// also tells the indexed height (one bbolt lookup instead of two)
+		hd, ht, err := e.bs.FetchHeader(&e.c.hash[i])
+		if err == nil {
+			o.B.ByHash[i] = e.idOf(hd)
+			o.B.HOf[i] = int(ht)
+			continue
+		}
+		o.B.ByHash[i] = vbNF
+		ht, err = e.bs.HeightFromHash(&e.c.hash[i])
 		if err != nil {
 			o.B.HOf[i] = vbNF
 		} else {
 			o.B.HOf[i] = int(ht)
-		}
-		hd, _, err := e.bs.FetchHeader(&e.c.hash[i])
-		if err != nil {
-			o.B.ByHash[i] = vbNF
-		} else {
-			o.B.ByHash[i] = e.idOf(hd)
 		}
 	}
 	// filter store: identity of a filter header = the block id whose true
@@ -589,7 +660,10 @@ func (e *vbEnv) exec(a vbAct) (out vbAct) {
 		for _, id := range a.Batch {
 			m.Headers = append(m.Headers, e.c.hdr[id])
 		}
+		e.fst.armed = a.K == 1
+		e.fst.sawRollback = false
 		e.bm.handleHeadersMsg(&headersMsg{headers: m, peer: e.peers[a.P-1]})
+		e.fst.armed = false
 	case "WriteCF":
 		ft, fth, err := e.fs.ChainTip()
 		if err != nil {
@@ -618,9 +692,11 @@ func (e *vbEnv) exec(a vbAct) (out vbAct) {
 			out.Res = "err"
 		}
 	case "Restart":
+		// new store objects and a new block manager on the persisted
+		// files; the bbolt handle stays open (reopening it costs more
+		// than a whole path and bbolt itself is not under test here)
 		e.stopManager()
-		e.closeStores()
-		if err := e.openStores(); err != nil {
+		if err := e.reopenStores(); err != nil {
 			out.Res = "err"
 			return
 		}
@@ -650,22 +726,119 @@ func vbCopyFile(src, dst string) error {
 	return o.Close()
 }
 
-func vbRunPath(c *vbChain, tmpl string, p vbPathIn, scratch string) (out vbPathOut) {
-	out.ID = p.ID
-	dir, err := os.MkdirTemp(scratch, "bm")
-	if err != nil {
-		out.Error = err.Error()
-		return
+// vbWorker keeps one store directory and one open database per worker: bbolt
+// rebuilds its free list on every open (the index has 65 536 sub-buckets), which
+// costs far more than a whole path. Between paths the stores are rolled back to
+// genesis through their own API; only if that fails (a path that ended in a
+// broken store) is the directory cloned afresh.
+type vbWorker struct {
+	c       *vbChain
+	tmpl    string
+	scratch string
+	e       *vbEnv
+}
+
+func (w *vbWorker) fresh() error {
+	if w.e != nil {
+		w.e.stopManager()
+		w.e.closeStores()
+		os.RemoveAll(w.e.dir)
+		w.e = nil
 	}
-	defer os.RemoveAll(dir)
+	dir, err := os.MkdirTemp(w.scratch, "bm")
+	if err != nil {
+		return err
+	}
 	for _, fn := range []string{"neutrino.db", "block_headers.bin", "reg_filter_headers.bin"} {
-		if err := vbCopyFile(filepath.Join(tmpl, fn), filepath.Join(dir, fn)); err != nil {
-			out.Error = err.Error()
+		if err := vbCopyFile(filepath.Join(w.tmpl, fn), filepath.Join(dir, fn)); err != nil {
+			return err
+		}
+	}
+	e := &vbEnv{c: w.c, dir: dir, hmax: w.c.maxH + 2, fhID: map[chainhash.Hash]int{},
+		fhCache: map[int]chainhash.Hash{}}
+	if err := e.openStores(); err != nil {
+		return err
+	}
+	w.e = e
+	return nil
+}
+
+// reset brings the worker's stores back to genesis; returns false if they
+// must be re-created.
+func (w *vbWorker) reset() (ok bool) {
+	e := w.e
+	if e == nil || e.db == nil || e.bs == nil || e.fs == nil {
+		return false
+	}
+	defer func() {
+		if r := recover(); r != nil {
+			ok = false
+		}
+	}()
+	e.stopManager()
+	for {
+		_, fh, err := e.fs.ChainTip()
+		if err != nil {
+			return false
+		}
+		if fh == 0 {
+			break
+		}
+		bh, err := e.bs.FetchHeaderByHeight(fh - 1)
+		if err != nil {
+			return false
+		}
+		nt := bh.BlockHash()
+		if _, err := e.fs.RollbackLastBlock(&nt); err != nil {
+			return false
+		}
+	}
+	_, th, err := e.bs.ChainTip()
+	if err != nil {
+		return false
+	}
+	if th > 0 {
+		if _, err := e.bs.RollbackBlockHeaders(th); err != nil {
+			return false
+		}
+	}
+	// sanity: both at genesis, nothing else indexed
+	if _, h, err := e.bs.ChainTip(); err != nil || h != 0 {
+		return false
+	}
+	for i := 1; i < len(e.c.hash); i++ {
+		if _, err := e.bs.HeightFromHash(&e.c.hash[i]); err == nil {
+			return false
+		}
+	}
+	if _, err := e.bs.FetchHeaderByHeight(1); err == nil {
+		return false
+	}
+	if _, err := e.fs.FetchHeaderByHeight(1); err == nil {
+		return false
+	}
+	return true
+}
+
+func (w *vbWorker) close() {
+	if w.e != nil {
+		w.e.stopManager()
+		w.e.closeStores()
+		os.RemoveAll(w.e.dir)
+		w.e = nil
+	}
+}
+
+func (w *vbWorker) runPath(p vbPathIn) (out vbPathOut) {
+	c := w.c
+	out.ID = p.ID
+	if !w.reset() {
+		if err := w.fresh(); err != nil {
+			out.Error = "fresh stores: " + err.Error()
 			return
 		}
 	}
-	e := &vbEnv{c: c, dir: dir, hmax: c.maxH + 2, fhID: map[chainhash.Hash]int{},
-		fhCache: map[int]chainhash.Hash{}}
+	e := w.e
 	defer func() {
 		if r := recover(); r != nil {
 			buf := make([]byte, 8192)
@@ -673,11 +846,29 @@ func vbRunPath(c *vbChain, tmpl string, p vbPathIn, scratch string) (out vbPathO
 			out.Error = fmt.Sprintf("driver panic: %v\n%s", r, buf)
 		}
 		e.stopManager()
-		e.closeStores()
 	}()
-	if err := e.openStores(); err != nil {
-		out.Error = "open: " + err.Error()
-		return
+	// pre-synced initial state of this path: block headers and the first
+	// filter headers are written the way an earlier run of the client left them
+	if n := len(p.Init.BFile); n > 1 {
+		hs := make([]headerfs.BlockHeader, 0, n-1)
+		for h := 1; h < n; h++ {
+			hs = append(hs, headerfs.BlockHeader{BlockHeader: c.hdr[p.Init.BFile[h]], Height: uint32(h)})
+		}
+		if err := e.bs.WriteHeaders(hs...); err != nil {
+			out.Error = "preload: " + err.Error()
+			return
+		}
+	}
+	if n := len(p.Init.FFile); n > 1 {
+		fhs := make([]headerfs.FilterHeader, 0, n-1)
+		for h := 1; h < n; h++ {
+			id := p.Init.FFile[h]
+			fhs = append(fhs, headerfs.FilterHeader{HeaderHash: c.hash[id], FilterHash: e.trueFH(id), Height: uint32(h)})
+		}
+		if err := e.fs.WriteHeaders(fhs...); err != nil {
+			out.Error = "preload filters: " + err.Error()
+			return
+		}
 	}
 	if err := e.startManager(); err != nil {
 		out.Error = "newBlockManager: " + err.Error()
@@ -774,8 +965,10 @@ func TestVerifBlockManagerReplay(t *testing.T) {
 		wg.Add(1)
 		go func() {
 			defer wg.Done()
+			w := &vbWorker{c: c, tmpl: tmpl, scratch: scratch}
+			defer w.close()
 			for i := range jobs {
-				results[i] = vbRunPath(c, tmpl, paths[i], scratch)
+				results[i] = w.runPath(paths[i])
 			}
 		}()
 	}
